@@ -12,8 +12,12 @@ From L1g Require Import Count MView MSimBase MSim MInv Frozen.
 From L1h Require Import WeakWF Hist Abs SimBase Sim HistFacts AInv Reach.
 From L1n Require Import Model Proj Eff Oba NInv NStep FrozenN.
 
+(* nobody outside B0 can move (B0: activations frozen inside a closure - blocked on a gate for an arbitrarily long time) *)
+Definition nterminal_except (T : tables) (F : facts) (ntop : nat) (P : prog) (B0 : list nat) (ns : nstate) : Prop :=
+  forall a, a ∉ B0 -> nstep T F ntop P ns a = None.
+
 Section Quiet.
-  Context (T : tables) (F : facts) (nq ntop : nat) (P : prog) (HW : nwf nq ntop P).
+  Context (T : tables) (F : facts) (nq ntop : nat) (P : prog) (HW : nwf nq ntop P) (B0 : list nat).
 
   (* the activations that could move in the base model but are held back by the nesting *)
   Definition enabled_b (s : state) (a : nat) : bool := match step T F s a with Some _ => true | None => false end.
@@ -36,9 +40,9 @@ Section Quiet.
       ns.(base).(actors) !! a = Some ac -> clos_op ac = Some o -> ns.(ops) !! o = Some (q, Some k) -> k ∈ ns.(started) ->
       done_b ns.(base) k = false -> (is_kid ntop P a = true -> a ∈ ns.(started)) -> hcase ns a.
 
-  Lemma held_cases ns a : NInv ntop P ns -> nterminal T F ntop P ns -> a ∈ held ns -> hcase ns a.
+  Lemma held_cases ns a : NInv ntop P ns -> nterminal_except T F ntop P B0 ns -> a ∈ held ns -> a ∉ B0 -> hcase ns a.
   Proof.
-    intros HN Hterm [s' Hs]%held_spec. specialize (Hterm a). unfold nstep in Hterm.
+    intros HN Hterm [s' Hs]%held_spec HnB. specialize (Hterm a HnB). unfold nstep in Hterm.
     destruct (is_kid ntop P a && negb (bool_decide (a ∈ started ns))) eqn:Eg.
     - apply andb_true_iff in Eg as [Hk Hn]. apply negb_true_iff, bool_decide_eq_false in Hn.
       destruct (n_unst _ _ _ HN a Hk Hn) as (ac & act & Ea & Hact & Est).
@@ -59,9 +63,11 @@ Section Quiet.
       destruct (stack ac) as [|fr rest]; [by apply Hgen|]. destruct fr; try (by apply Hgen). destruct script; [by apply Hgen|done].
   Qed.
 
-  Lemma held_frozen ns : NInv ntop P ns -> nterminal T F ntop P ns -> frozen_ok' ns.(base) (held ns).
+  Lemma held_frozen ns : NInv ntop P ns -> nterminal_except T F ntop P B0 ns -> frozen_ok ns.(base) B0 -> frozen_ok' ns.(base) (held ns).
   Proof.
-    intros HN Hterm a Ha. destruct (held_cases ns a HN Hterm Ha) as [ac act o os _ _ Ea _ Est|ac o q k Ea Ec _ _ _ _].
+    intros HN Hterm HB0 a Ha. destruct (decide (a ∈ B0)) as [Hin|HnB].
+    { destruct (HB0 a Hin) as (ac & fr & rest & E1 & E2 & E3). exists ac, fr, rest. split; [done|]. split; [done|]. by destruct fr. }
+    destruct (held_cases ns a HN Hterm Ha HnB) as [ac act o os _ _ Ea _ Est|ac o q k Ea Ec _ _ _ _].
     - exists ac, (FTop (o :: os)), []. done.
     - unfold clos_op in Ec. destruct (stack ac) as [|fr rest] eqn:Est; [done|]. exists ac, fr, rest. split; [done|]. split; [done|]. by destruct fr.
   Qed.
@@ -100,7 +106,8 @@ Section Quiet.
   Qed.
 
   Section Main.
-    Context (ns : nstate) (HNI : NInv ntop P ns) (HB : BaseOK P ns) (Hterm : nterminal T F ntop P ns).
+    Context (ns : nstate) (HNI : NInv ntop P ns) (HB : BaseOK P ns)
+            (Hterm : nterminal_except T F ntop P B0 ns) (HB0 : frozen_ok ns.(base) B0).
 
     Local Notation s := (base ns).
     Let HS : Shape s := a_shape _ (b_all _ _ HB).
@@ -133,8 +140,21 @@ Section Quiet.
       - apply Hjob. right. by rewrite Est.
     Qed.
 
+    (* an activation that holds a closure owns the queue of that closure *)
+    Lemma cshape_owner b ab o qc : s.(actors) !! b = Some ab -> cshape ab o qc ->
+      exists qq, s.(queues) !! qc = Some qq /\ qq.(owner) = Some b /\ qq.(qs) = Running.
+    Proof.
+      intros Eb Hsh.
+      assert (Hl : qc < length (queues s)).
+      { pose proof (WF_self s b ab HWf Eb) as Hw. destruct Hsh as [os Est _|j g os Est _ _|j t Est _]; rewrite Est in Hw; cbn in Hw;
+          apply andb_true_iff in Hw as [Hw _]; by apply bool_decide_eq_true in Hw. }
+      destruct (lookup_lt_is_Some_2 _ _ Hl) as [qq Eq]. exists qq. split; [done|].
+      assert (Hcnt : stack_cnt s b qc = Some 1) by (rewrite (stack_cnt_self s b ab qc Eb), (cshape_cnt ab o qc qc Hsh), decide_True by done; done).
+      exact (runner_owns s b qc qq 0 HIv Hcnt Eq).
+    Qed.
+
     Lemma held_stuck a ac : s.(actors) !! a = Some ac -> a ∉ held ns -> stuck_ok s ac.(stack).
-    Proof. intros Ea Hn. by eapply (stuck_frames_except' T F (held ns) s HS HWf (held_frozen ns HNI Hterm) (held_texc ns)). Qed.
+    Proof. intros Ea Hn. by eapply (stuck_frames_except' T F (held ns) s HS HWf (held_frozen ns HNI Hterm HB0) (held_texc ns)). Qed.
 
     (* every top frame is a stuck frame or belongs to a held activation *)
     Lemma top_frames b ab fr rest : s.(actors) !! b = Some ab -> ab.(stack) = fr :: rest -> stuck_frame fr \/ b ∈ held ns.
@@ -155,21 +175,35 @@ Section Quiet.
       pose proof (w_higher _ _ _ HW k actk qb Hact Hb) as Hall. rewrite list.Forall_forall in Hall. by apply Hall.
     Qed.
 
-    (* ---------- no queue is being run ---------- *)
-    Lemma no_running_aux n : forall q qq, length s.(queues) - q <= n -> s.(queues) !! q = Some qq -> qq.(qs) <> Running.
+    (* ---------- blocked because of a frozen activation ---------- *)
+    (* b holds the job of waiter w: it runs the queue in which the job is stored, or has the job in its hand *)
+    Definition holds_job (b w q : nat) : Prop :=
+      (exists qq o, s.(queues) !! q = Some qq /\ qq.(owner) = Some b /\ JSyncBg o w ∈ qq.(jobs)) \/
+      (exists ab q' o, s.(actors) !! b = Some ab /\
+         (hd_error ab.(stack) = Some (FROrun q' (JSyncBg o w)) \/ hd_error ab.(stack) = Some (FDRrun q' (JSyncBg o w)))).
+    Inductive bf : nat -> Prop :=
+    | bf_frozen a : a ∈ B0 -> bf a
+    | bf_parent p ac o q k : s.(actors) !! p = Some ac -> clos_op ac = Some o -> ns.(ops) !! o = Some (q, Some k) ->
+        k ∈ ns.(started) -> done_b s k = false -> bf k -> bf p
+    | bf_wait w ac q rest b : s.(actors) !! w = Some ac -> ac.(stack) = FSBwait q :: rest -> holds_job b w q -> bf b -> bf w.
+
+    (* ---------- the owner of a queue that is being run is blocked because of a frozen activation ---------- *)
+    Lemma running_bf_aux n : forall q qq b, length s.(queues) - q <= n -> s.(queues) !! q = Some qq -> qq.(owner) = Some b -> bf b.
     Proof.
-      induction n as [|n IH]; intros q qq Hn Hq Hr.
+      induction n as [|n IH]; intros q qq b Hn Hq Hb.
       { apply lookup_lt_Some in Hq. lia. }
       pose proof HIv as [I1 I2 I3].
-      destruct (proj2 (I2 q qq Hq) Hr) as [b Hb]. pose proof (I3 q qq b Hq Hb) as Hlt.
+      pose proof (I3 q qq b Hq Hb) as Hlt.
       destruct (lookup_lt_is_Some_2 _ _ Hlt) as [ab Eb].
       assert (Hc : cnt q (stack ab) = 1).
       { pose proof (I1 b q qq _ (stack_cnt_self s b ab q Eb) Hq) as H1. by rewrite decide_True in H1 by done. }
       assert (Hbh : b ∈ held ns).
       { destruct (decide (b ∈ held ns)) as [|Hnh]; [done|]. rewrite (stuck_cnt0 s b ab q HS Eb (held_stuck b ab Eb Hnh)) in Hc. done. }
-      destruct (held_cases ns b HNI Hterm Hbh) as [ac act o os _ _ Ea _ Est|ac o qo k Ea Ec Eo Hks Hkd _].
+      destruct (decide (b ∈ B0)) as [|HbB]; [by apply bf_frozen|].
+      destruct (held_cases ns b HNI Hterm Hbh HbB) as [ac act o os _ _ Ea _ Est|ac o qo k Ea Ec Eo Hks Hkd _].
       { rewrite Eb in Ea. injection Ea as <-. rewrite Est in Hc. done. }
       rewrite Eb in Ea. injection Ea as <-.
+      eapply (bf_parent b ab o qo k); try done.
       destruct (clos_shape s b ab o HS Eb Ec) as [qc Hsh].
       rewrite (cshape_cnt ab o qc q Hsh) in Hc. case_decide as Hqc; [subst qc|done].
       destruct (clos_call b ab o q Eb Hsh) as [k1 H1]. destruct (n_call _ _ _ HNI _ _ _ Eo) as [k2 H2].
@@ -178,21 +212,14 @@ Section Quiet.
       destruct (n_plen _ _ _ HNI k actk Hactk) as [ak Ek].
       pose proof (caller_kid k Hkid) as Hkc.
       pose proof (sh_caller _ HS k ak Ek Hkc) as Hcok.
-      (* a queue above q that is Running contradicts the induction hypothesis *)
-      assert (Hup : forall q1 qq1, q < q1 -> s.(queues) !! q1 = Some qq1 -> qq1.(qs) = Running -> False).
-      { intros q1 qq1 Hlt1 Hq1 Hr1. apply (IH q1 qq1); [|done|done]. apply lookup_lt_Some in Hq1. lia. }
       (* an activation that holds a closure on a queue above q *)
-      assert (Hupc : forall b2 ab2 o2 q2, s.(actors) !! b2 = Some ab2 -> cshape ab2 o2 q2 -> q < q2 -> False).
-      { intros b2 ab2 o2 q2 E2 Hsh2 Hlt2.
-        assert (Hl : q2 < length (queues s)).
-        { pose proof (WF_self s b2 ab2 HWf E2) as Hw. destruct Hsh2 as [os Est _|j g os Est _ _|j t Est _]; rewrite Est in Hw; cbn in Hw;
-            apply andb_true_iff in Hw as [Hw _]; by apply bool_decide_eq_true in Hw. }
-        destruct (lookup_lt_is_Some_2 _ _ Hl) as [qq2 Eq2].
-        assert (Hcnt : stack_cnt s b2 q2 = Some 1) by (rewrite (stack_cnt_self s b2 ab2 q2 E2), (cshape_cnt ab2 o2 q2 q2 Hsh2), decide_True by done; done).
-        destruct (runner_owns s b2 q2 qq2 0 HIv Hcnt Eq2) as [_ Hr2]. by eapply Hup. }
+      assert (Hupc : forall b2 ab2 o2 q2, s.(actors) !! b2 = Some ab2 -> cshape ab2 o2 q2 -> q < q2 -> bf b2).
+      { intros b2 ab2 o2 q2 E2 Hsh2 Hlt2. destruct (cshape_owner b2 ab2 o2 q2 E2 Hsh2) as (qq2 & Eq2 & Ho2 & _).
+        apply (IH q2 qq2 b2); [|done|done]. apply lookup_lt_Some in Eq2. lia. }
+      destruct (decide (k ∈ B0)) as [|HkB]; [by apply bf_frozen|].
       destruct (decide (k ∈ held ns)) as [Hkh|Hkn].
       - (* the body is itself suspended in a closure: of a queue above q *)
-        destruct (held_cases ns k HNI Hterm Hkh) as [? ? ? ? _ Hns _ _ _|ak' o2 q2 kx Ea2 Ec2 _ _ _ _]; [done|].
+        destruct (held_cases ns k HNI Hterm Hkh HkB) as [? ? ? ? _ Hns _ _ _|ak' o2 q2 kx Ea2 Ec2 _ _ _ _]; [done|].
         rewrite Ek in Ea2. injection Ea2 as <-.
         destruct (clos_shape s k ak o2 HS Ek Ec2) as [qc2 Hsh2].
         eapply (Hupc k ak o2 qc2 Ek Hsh2). eapply (kid_higher k ak actk q qc2 Ek Hactk Hbase (cshape_midop _ _ _ Hsh2)).
@@ -209,16 +236,22 @@ Section Quiet.
           assert (Hrdy : ready ak = false) by (apply (J2 q1); by rewrite Estk).
           destruct (J1 q1) as [(qq1 & o1 & G1 & G2)|(b2 & st & o1 & G1 & (q' & G2))]; [by rewrite Estk|done| |].
           * destruct (z_z _ (b_all0 _ _ HB) k ak Ek) as [_ _ _ Z4].
-            destruct (Z4 q1 qq1 o1) as [Hrun|Ht]; try done; [by rewrite Estk|right; by rewrite Estk|by eapply Hup|].
-            destruct Ht as (b3 & st3 & Hb3 & Hh3). rewrite stacks_lookup in Hb3. destruct (actors s !! b3) as [ab3|] eqn:Eb3; [|done]. injection Hb3 as <-.
-            destruct (stack ab3) as [|fr3 rest3] eqn:Est3; [done|]. injection Hh3 as ->.
-            destruct (top_frames b3 ab3 _ _ Eb3 Est3) as [Hsf3|Hh3]; [done|].
-            destruct (held_frozen ns HNI Hterm b3 Hh3) as (ab' & fr' & rest' & E1 & E2 & E3). rewrite Eb3 in E1. injection E1 as <-. rewrite Est3 in E2. by injection E2 as <- _.
+            destruct (Z4 q1 qq1 o1) as [Hrun|Ht]; try done; [by rewrite Estk|right; by rewrite Estk| |].
+            -- destruct (proj2 (I2 q1 qq1 G1) Hrun) as [b1 Hb1].
+               eapply (bf_wait k ak q1 [FTop os] b1 Ek Estk); [left; by exists qq1, o1|].
+               apply (IH q1 qq1 b1); [|done|done]. apply lookup_lt_Some in G1. lia.
+            -- exfalso. destruct Ht as (b3 & st3 & Hb3 & Hh3). rewrite stacks_lookup in Hb3. destruct (actors s !! b3) as [ab3|] eqn:Eb3; [|done]. injection Hb3 as <-.
+               destruct (stack ab3) as [|fr3 rest3] eqn:Est3; [done|]. injection Hh3 as ->.
+               destruct (top_frames b3 ab3 _ _ Eb3 Est3) as [Hsf3|Hh3]; [done|].
+               destruct (held_frozen ns HNI Hterm HB0 b3 Hh3) as (ab' & fr' & rest' & E1 & E2 & E3). rewrite Eb3 in E1. injection E1 as <-. rewrite Est3 in E2. by injection E2 as <- _.
           * rewrite stacks_lookup in G1. destruct (actors s !! b2) as [ab2|] eqn:Eb2; [|done]. injection G1 as <-.
             destruct (stack ab2) as [|fr2 rest2] eqn:Est2; [by destruct G2|].
             assert (Hfr2 : fr2 = FROrun q' (JSyncBg o1 k) \/ fr2 = FDRrun q' (JSyncBg o1 k)) by (destruct G2 as [[= ->]|[= ->]]; eauto).
+            eapply (bf_wait k ak q1 [FTop os] b2 Ek Estk).
+            { right. exists ab2, q', o1. split; [done|]. rewrite Est2. destruct Hfr2 as [-> | ->]; eauto. }
+            destruct (decide (b2 ∈ B0)) as [|Hb2B]; [by apply bf_frozen|].
             destruct (top_frames b2 ab2 _ _ Eb2 Est2) as [Hsf2|Hh2]; [by destruct Hfr2 as [-> | ->]|].
-            destruct (held_cases ns b2 HNI Hterm Hh2) as [ac2 ? ? ? _ _ Ea2 _ Est2'|ac2 o2 q2 kx Ea2 Ec2 _ _ _ _].
+            destruct (held_cases ns b2 HNI Hterm Hh2 Hb2B) as [ac2 ? ? ? _ _ Ea2 _ Est2'|ac2 o2 q2 kx Ea2 Ec2 _ _ _ _].
             { rewrite Eb2 in Ea2. injection Ea2 as <-. rewrite Est2 in Est2'. injection Est2' as -> _. by destruct Hfr2. }
             rewrite Eb2 in Ea2. injection Ea2 as <-.
             destruct (clos_shape s b2 ab2 o2 HS Eb2 Ec2) as [qc2 Hsh2].
@@ -230,12 +263,7 @@ Section Quiet.
             destruct (clos_call b2 ab2 _ qc2 Eb2 Hsh2) as [kk1 Hc1]. cbn in Hc1.
             (* the job is the current operation of the waiting body *)
             assert (Hpend : JSyncBg o1 k ∈ pend s qc2).
-            { assert (Hl : qc2 < length (queues s)).
-              { pose proof (WF_self s b2 ab2 HWf Eb2) as Hw. rewrite Est2 in Hw. cbn in Hw. apply andb_true_iff in Hw as [Hw _].
-                destruct Hfr2 as [-> | ->]; cbn in Hw; by apply bool_decide_eq_true in Hw. }
-              destruct (lookup_lt_is_Some_2 _ _ Hl) as [qq2 Eq2].
-              assert (Hcnt : stack_cnt s b2 qc2 = Some 1) by (rewrite (stack_cnt_self s b2 ab2 qc2 Eb2), (cshape_cnt ab2 _ qc2 qc2 Hsh2), decide_True by done; done).
-              destruct (runner_owns s b2 qc2 qq2 0 HIv Hcnt Eq2) as [Ho2 _].
+            { destruct (cshape_owner b2 ab2 _ qc2 Eb2 Hsh2) as (qq2 & Eq2 & Ho2 & _).
               rewrite (pend_self s b2 ab2 qc2 (jobs qq2) Eb2) by (by rewrite (oj_lookup s qc2 qq2 Eq2), Ho2).
               apply elem_of_app. left. rewrite Est2. destruct Hfr2 as [-> | ->]; cbn; rewrite decide_True by done; by left. }
             destruct (ai_job _ _ HAi qc2 (JSyncBg o1 k) o1 k Hpend) as (x & q'' & Hx & Hop & _); [by right|].
@@ -245,51 +273,90 @@ Section Quiet.
         + destruct fr; try done; destruct g; done.
     Qed.
 
-    Lemma no_running q qq : s.(queues) !! q = Some qq -> qq.(qs) <> Running.
-    Proof. intros Hq. eapply (no_running_aux (length (queues s))); [lia|exact Hq]. Qed.
+    Lemma running_bf q qq b : s.(queues) !! q = Some qq -> qq.(owner) = Some b -> bf b.
+    Proof. intros Hq. eapply (running_bf_aux (length (queues s))); [lia|exact Hq]. Qed.
 
-    (* ---------- what is left: only bodies that were never started are held back ---------- *)
-    Lemma held_unstarted a : a ∈ held ns ->
-      is_kid ntop P a = true /\ a ∉ ns.(started) /\ exists ac act, s.(actors) !! a = Some ac /\ P !! a = Some act /\ ac.(stack) = [FTop act.(a_script)].
+    (* a held activation: frozen, blocked because of a frozen one, or a body that was never started *)
+    Lemma held_bf a : a ∈ held ns ->
+      bf a \/ (is_kid ntop P a = true /\ a ∉ ns.(started) /\ exists ac act, s.(actors) !! a = Some ac /\ P !! a = Some act /\ ac.(stack) = [FTop act.(a_script)]).
     Proof.
-      intros Ha. destruct (held_cases ns a HNI Hterm Ha) as [ac act o os Hk Hn Ea Hact Est|ac o qo k Ea Ec Eo Hks Hkd _].
-      - split; [done|]. split; [done|]. destruct (n_unst _ _ _ HNI a Hk Hn) as (ac' & act' & E1 & E2 & E3). eauto.
-      - exfalso. destruct (clos_shape s a ac o HS Ea Ec) as [qc Hsh].
-        assert (Hl : qc < length (queues s)).
-        { pose proof (WF_self s a ac HWf Ea) as Hw. destruct Hsh as [os Est _|j g os Est _ _|j t Est _]; rewrite Est in Hw; cbn in Hw;
-            apply andb_true_iff in Hw as [Hw _]; by apply bool_decide_eq_true in Hw. }
-        destruct (lookup_lt_is_Some_2 _ _ Hl) as [qq Eq].
-        assert (Hcnt : stack_cnt s a qc = Some 1) by (rewrite (stack_cnt_self s a ac qc Ea), (cshape_cnt ac o qc qc Hsh), decide_True by done; done).
-        destruct (runner_owns s a qc qq 0 HIv Hcnt Eq) as [_ Hr]. by eapply no_running.
+      intros Ha. destruct (decide (a ∈ B0)) as [|HaB]; [left; by apply bf_frozen|].
+      destruct (held_cases ns a HNI Hterm Ha HaB) as [ac act o os Hk Hn Ea Hact Est|ac o qo k Ea Ec Eo Hks Hkd _].
+      - right. split; [done|]. split; [done|]. destruct (n_unst _ _ _ HNI a Hk Hn) as (ac' & act' & E1 & E2 & E3). eauto.
+      - left. destruct (clos_shape s a ac o HS Ea Ec) as [qc Hsh]. destruct (cshape_owner a ac o qc Ea Hsh) as (qq & Eq & Ho & _).
+        by eapply running_bf.
     Qed.
 
-    Record nquiet : Prop := {
-      (* every activation that was started (every top-level caller, every body whose job ran) has finished its script;
-         a body that was never started still has its whole script *)
-      nq_acts : forall a ac, s.(actors) !! a = Some ac -> a < ncallers s ->
-          ac.(stack) = [FTop []] \/
+    Record nquiet_except : Prop := {
+      (* a queue that is not Idle and empty is being run by an activation that is blocked because of a frozen one *)
+      nqe_queues : forall q qq, s.(queues) !! q = Some qq ->
+          (qq.(qs) = Idle /\ qq.(jobs) = []) \/ (qq.(qs) = Running /\ exists b, qq.(owner) = Some b /\ bf b);
+      (* an activation has finished its script, was never started, or is blocked because of a frozen activation *)
+      nqe_acts : forall a ac, s.(actors) !! a = Some ac -> a < ncallers s ->
+          ac.(stack) = [FTop []] \/ bf a \/
           (is_kid ntop P a = true /\ a ∉ ns.(started) /\ exists act, P !! a = Some act /\ ac.(stack) = [FTop act.(a_script)]);
-      nq_queues : forall q qq, s.(queues) !! q = Some qq -> qq.(qs) = Idle /\ qq.(jobs) = [];
-      nq_pool : forall t th, s.(threads) !! t = Some th ->
-          th.(busy) = false /\ exists ap, s.(actors) !! (ncallers s + t) = Some ap /\ ap.(stack) = [FTrecv t];
+      (* a pool thread is dormant, or blocked because of a frozen activation *)
+      nqe_pool : forall t th, s.(threads) !! t = Some th ->
+          bf (ncallers s + t) \/ (th.(busy) = false /\ exists ap, s.(actors) !! (ncallers s + t) = Some ap /\ ap.(stack) = [FTrecv t]);
     }.
 
-    Theorem nterminal_quiet : nquiet.
+    (* the pool has a thread that is neither frozen nor suspended, or may still spawn one *)
+    Definition npool_free : Prop :=
+      length s.(threads) < s.(maxt) \/ exists t, t < length s.(threads) /\ ncallers s + t ∉ held ns.
+
+    Theorem nfrozen_quiet : npool_free -> nquiet_except.
     Proof.
-      assert (Hfree : length s.(threads) < s.(maxt) \/ exists t, t < length s.(threads) /\ ncallers s + t ∉ held ns).
-      { destruct (threads s) as [|th ths] eqn:Eth.
-        - left. cbn. pose proof (a_max _ (b_all _ _ HB)). lia.
-        - right. exists 0. split; [cbn; lia|]. intros Hin. destruct (held_unstarted _ Hin) as (Hk & _). pose proof (caller_kid _ Hk). lia. }
-      destruct (frozen_quiet' T F (held ns) s (b_all _ _ HB) (b_m _ _ HB) (held_frozen ns HNI Hterm) (held_texc ns) Hfree) as [Q1 Q2 Q3].
+      intros Hfree.
+      destruct (frozen_quiet' T F (held ns) s (b_all _ _ HB) (b_m _ _ HB) (held_frozen ns HNI Hterm HB0) (held_texc ns) Hfree) as [Q1 Q2 Q3].
       split.
+      - intros q qq Hq. destruct (Q1 q qq Hq) as [?|(Hr & b & Hb & _)]; [by left|]. right. split; [done|]. exists b. split; [done|]. by eapply running_bf.
       - intros a ac Ea Hlt. destruct (decide (a ∈ held ns)) as [Hin|Hn].
-        + right. destruct (held_unstarted a Hin) as (Hk & Hns & ac' & act & E1 & E2 & E3). rewrite Ea in E1. injection E1 as <-. eauto.
-        + left. destruct (Q2 a ac Ea Hlt Hn) as [?|(q & rest & Est & Hwb)]; [done|]. exfalso.
-          destruct Hwb as [(qq & b & o & G1 & G2 & _)|(b & ab & q' & o & Hb & Eb & Hhd)].
-          * apply (no_running q qq G1). destruct HIv as [_ I2 _]. apply (I2 q qq G1). by eexists.
-          * destruct (held_unstarted b Hb) as (_ & _ & ab' & act & E1 & _ & E3). rewrite Eb in E1. injection E1 as <-. rewrite E3 in Hhd. by destruct Hhd.
-      - intros q qq Hq. destruct (Q1 q qq Hq) as [?|[Hr _]]; [done|]. by destruct (no_running q qq Hq).
-      - intros t th Ht. apply (Q3 t th Ht). intros Hin. destruct (held_unstarted _ Hin) as (Hk & _). pose proof (caller_kid _ Hk). lia.
+        + destruct (held_bf a Hin) as [?|(Hk & Hns & ac' & act & E1 & E2 & E3)]; [by right; left|].
+          right; right. rewrite Ea in E1. injection E1 as <-. eauto.
+        + destruct (Q2 a ac Ea Hlt Hn) as [?|(q & rest & Est & Hwb)]; [by left|]. right; left.
+          destruct Hwb as [(qq & b & o & G1 & G2 & G3 & G4)|(b & ab & q' & o & Hb & Eb & Hhd)].
+          * eapply (bf_wait a ac q rest b Ea Est); [left; by exists qq, o|]. by eapply running_bf.
+          * eapply (bf_wait a ac q rest b Ea Est); [right; by exists ab, q', o|].
+            destruct (held_bf b Hb) as [?|(_ & _ & ab' & act & E1 & _ & E3)]; [done|]. exfalso.
+            rewrite Eb in E1. injection E1 as <-. rewrite E3 in Hhd. by destruct Hhd.
+      - intros t th Ht. destruct (decide (ncallers s + t ∈ held ns)) as [Hin|Hn]; [|right; by apply (Q3 t th Ht)].
+        destruct (held_bf _ Hin) as [?|(Hk & _)]; [by left|]. pose proof (caller_kid _ Hk). lia.
     Qed.
   End Main.
+
+  (* ---------- nobody frozen: L-quiet ---------- *)
+  Record nquiet (ns : nstate) : Prop := {
+    (* every activation that was started (every top-level caller, every body whose job ran) has finished its script;
+       a body that was never started still has its whole script *)
+    nq_acts : forall a ac, ns.(base).(actors) !! a = Some ac -> a < ncallers ns.(base) ->
+        ac.(stack) = [FTop []] \/
+        (is_kid ntop P a = true /\ a ∉ ns.(started) /\ exists act, P !! a = Some act /\ ac.(stack) = [FTop act.(a_script)]);
+    nq_queues : forall q qq, ns.(base).(queues) !! q = Some qq -> qq.(qs) = Idle /\ qq.(jobs) = [];
+    nq_pool : forall t th, ns.(base).(threads) !! t = Some th ->
+        th.(busy) = false /\ exists ap, ns.(base).(actors) !! (ncallers ns.(base) + t) = Some ap /\ ap.(stack) = [FTrecv t];
+  }.
 End Quiet.
+
+Section QuietAll.
+  Context (T : tables) (F : facts) (nq ntop : nat) (P : prog) (HW : nwf nq ntop P).
+  Context (ns : nstate) (HNI : NInv ntop P ns) (HB : BaseOK P ns) (Hterm : nterminal T F ntop P ns).
+
+  Lemma texc_nil : nterminal_except T F ntop P [] ns. Proof. intros a _. apply Hterm. Qed.
+  Lemma frozen_nil : frozen_ok ns.(base) []. Proof. intros a Ha. by apply elem_of_nil in Ha. Qed.
+  Lemma bf_nil a : bf [] ns a -> False.
+  Proof. induction 1 as [a Ha| |]; [by apply elem_of_nil in Ha|done|done]. Qed.
+
+  Theorem nterminal_quiet : nquiet ntop P ns.
+  Proof.
+    assert (Hfree : npool_free T F ns).
+    { unfold npool_free. destruct (threads (base ns)) as [|th ths] eqn:Eth.
+      - left. cbn. pose proof (a_max _ (b_all _ _ HB)). lia.
+      - right. exists 0. split; [cbn; lia|]. intros Hin.
+        destruct (held_bf T F nq ntop P HW [] ns HNI HB texc_nil frozen_nil _ Hin) as [Hbf|(Hk & _)]; [by apply bf_nil in Hbf|].
+        pose proof (caller_kid ntop P ns HB _ Hk). lia. }
+    destruct (nfrozen_quiet T F nq ntop P HW [] ns HNI HB texc_nil frozen_nil Hfree) as [Q1 Q2 Q3]. split.
+    - intros a ac Ea Hlt. destruct (Q2 a ac Ea Hlt) as [?|[Hbf|?]]; [by left|by apply bf_nil in Hbf|by right].
+    - intros q qq Hq. destruct (Q1 q qq Hq) as [?|(_ & b & _ & Hbf)]; [done|by apply bf_nil in Hbf].
+    - intros t th Ht. destruct (Q3 t th Ht) as [Hbf|?]; [by apply bf_nil in Hbf|done].
+  Qed.
+End QuietAll.
